@@ -49,6 +49,8 @@ func main() {
 		os.Exit(cmdCheck(os.Args[2:]))
 	case "replay":
 		os.Exit(cmdReplay(os.Args[2:]))
+	case "writers":
+		os.Exit(cmdWriters(os.Args[2:]))
 	default:
 		fmt.Fprintln(os.Stderr, "unknown command", os.Args[1])
 		os.Exit(2)
